@@ -30,6 +30,7 @@ VERUS_UNITS = {
     'server': 'contracts.server',
     'trace_ctx': 'contracts.trace_ctx',
     'channels': 'contracts.channels',
+    'cancellations': 'contracts.cancellations',
 }
 
 PROPS = {}
@@ -56,7 +57,7 @@ TECH_V = 'Verus: contracts (requires/ensures/loop invariants, ghost effect log a
 TECH_K = 'Kani/CBMC: assume(requires); one call of the real function; assert(ensures) over full-domain symbolic inputs, harness mounted in the real crate under cfg(kani)'
 
 prop('C01', title='Responses reach exactly the call that asked',
-     verus=['client'], native=['client_routing_bounded'], technique=TECH_V + '; plus a bounded replay search through the public API as a source of concrete failing inputs (never counted as proved)',
+     verus=['client'], native=['client_routing_bounded', 'client_wire_bounded'], technique=TECH_V + '; plus a bounded replay search through the public API as a source of concrete failing inputs (never counted as proved)',
      assumptions=COMMON_V + ['A-oneshot', 'A-mpsc', 'A-ids', 'A-pair', 'A-delayqueue', 'A-sink'],
      level_text='Deductive proof over all table states, ids and responses: complete_request/complete/pump_read deliver a response body only to the oneshot channel stored under the response\'s own id, remove exactly that entry, and leave view, timers and effect log untouched for an unknown id; the write pump only ever delivers errors; insert stores exactly the given sender under the id written to the wire. Every history is a sequence of these contracted calls (single-owner dispatch), so the per-call clauses + dispatch invariant give the property for all interleavings.',
      level_note='Channel::call is under contract too: the sender it enqueues under the allocated id is the sender of the very receiver it then awaits (A-pair reduced to the model of oneshot::channel()). tokio\'s oneshot delivery is assumed (A-oneshot).',
@@ -68,7 +69,7 @@ prop('C02', SERVER_TOO, title='Every call terminates; no wakeup is lost',
      level_note='Liveness is not decidable by this technique; dependency models are assumed to register the waker whenever they answer Pending.',
      not_covered='liveness proper; caller-side oneshot wake; server handler wake-ups; executor fairness; a transport registration superseded within the same poll (argued on paper: the superseding Ready implies a wake was issued during this poll)')
 prop('C03', title='Abandoned calls are cancelled on the wire, exactly when needed',
-     verus=['client'], technique=TECH_V,
+     verus=['client', 'cancellations'], native=['client_wire_bounded'], technique=TECH_V,
      assumptions=COMMON_V + ['A-oneshot', 'A-mpsc', 'A-ids', 'A-sink', 'A-delayqueue'],
      level_text='Proof that a request is yielded for writing only if its receiver was not seen closed; that a Cancel is written only for an id that is in flight (hence after its Request: dispatch invariant has_req) and removes it from the table (hence at most once); that a request whose write failed is removed (no later cancel).',
      level_note='Also proved: ResponseGuard::drop closes the receiver before queueing the cancellation and queues one iff armed; ResponseGuard::response disarms the guard once the receiver produced; Channel::call creates the armed guard before enqueueing the request.',
@@ -92,13 +93,13 @@ prop('C09', SERVER_TOO, title='Transport failures are contained and reported',
      level_note='shut_down_with_terminal_error is under contract (every queued caller with an open receiver is delivered the channel error; only channel errors are delivered; the transport is not touched again) with complete_all_requests cut to an ASSUMED contract (R11: impl Iterator over a draining map). Server: BaseChannel/Requests error tagging and containment are proved in unit server.',
      not_covered='RequestDispatch::poll (dyn-Any downcast of the stored terminal error), complete_all_requests itself, Drop for server::InFlightRequests (aborts on channel drop)')
 prop('C10', SERVER_TOO, title='Shutdown is orderly: queued work is drained first',
-     verus=['client'], technique=TECH_V,
+     verus=['client'], native=['client_wire_bounded'], technique=TECH_V,
      assumptions=COMMON_V + ['A-sink', 'A-mpsc', 'A-oneshot', 'A-delayqueue'],
      level_text='Proof that pump_write returns Ready(None) only when both queues are drained, the transport is closed and nothing is unflushed (invariant: closed => both queues drained); that run() returns Ok only if the read side ended or the write side closed with an empty table.',
      level_note='That dropping the dispatch future fails the remaining callers is Rust drop glue + A-oneshot.',
      not_covered='server side (unit server)')
 prop('C11', SERVER_TOO, title='Tracked request state is bounded and fully reclaimed',
-     verus=['client'],
+     verus=['client', 'cancellations'],
      technique='Verus: representation invariant (timers<->entries bijection) + whole-view postconditions on the real table functions, extracted from /repo each run',
      level_text='Deductive proof, for all table states and all ids, that every public operation of the real in-flight tables preserves the timers<->entries bijection and changes the abstract view exactly as specified; the history quantifier is discharged by the invariant (every call sequence is a sequence of contracted calls).',
      level_note='Proof is about the extracted text (rules logged per run) against trusted models of HashMap/DelayQueue/oneshot.',
@@ -113,7 +114,7 @@ prop('C15', title='Shipped transports deliver messages intact and in order',
      not_covered='length-delimited framing under fragmentation, serde-derived schemas, FIFO of the tokio/futures queues and end-of-stream signalling are dependency code (A-codec, A-mpsc): not claimed')
 
 prop('C14', SERVER_TOO, title="tarpc honours the pluggable transport's contract",
-     verus=['client'], technique=TECH_V + '; the transport model\'s start_send preconditions are the property\'s write conditions',
+     verus=['client'], native=['client_wire_bounded'], technique=TECH_V + '; the transport model\'s start_send preconditions are the property\'s write conditions',
      assumptions=COMMON_V + ['A-sink', 'A-mpsc'],
      level_text='Proof that every start_send call site of the client dispatch establishes ready && !failed && !closed; that pump_write/run go idle only with unflushed == 0 or the flush waker registered; and the bounded-retry clause: ensure_writeable polls readiness at most twice per call (ghost counter np) and returns Pending with a transport waker registered.',
      level_note='Server channel and throttler call sites are in unit server when registered.',
@@ -133,7 +134,7 @@ prop('C18', SERVER_TOO, title='Trace context follows the request, and only that 
      not_covered='OpenTelemetry bridge')
 
 prop('C04', title='Servers stop cancelled work and cancellation cascades',
-     verus=['server'], technique=TECH_V,
+     verus=['server', 'cancellations'], technique=TECH_V,
      assumptions=COMMON_V + ['A-abortable', 'A-delayqueue', 'A-sink', 'A-mpsc'],
      level_text='Proof that a Cancel message aborts exactly the handle stored for that id, untracks it and removes its timer, and changes nothing for an unknown id; that BaseChannel::start_send drops a response whose id is no longer tracked (nothing is transmitted after a cancel); that reading never produces effects other than aborts; that every poll of a channel polls its inbound side (control traffic is processed). The cascade step (an aborted handler drops its nested calls, whose guards cancel downstream) rests on A-abortable + the client guard contract.',
      level_note='Known finding F8 (throttler at its limit with the sink not ready does not poll the inner channel) is reported as KNOWN-FINDING.',
